@@ -18,7 +18,8 @@
 EXTENDS Integers, Sequences, FiniteSets, TLC, Json
 
 \* badOptionValue: a command's own option with a value outside its domain (`--max-depth deep`, `perf --rule nosuch`)
-Faults  == {"none", "badOption", "badFormat", "badOptionValue", "missingPath", "missingPathAfterExisting",
+\* zeroOptionValue: a threshold option given the number 0 (documented: thresholds must be positive)
+Faults  == {"none", "badOption", "badFormat", "badOptionValue", "zeroOptionValue", "missingPath", "missingPathAfterExisting",
             "missingConfig", "malformedYaml", "malformedJson", "malformedProjectYaml",
             \* a config file that parses but whose top level is not a mapping (a YAML list, a YAML scalar, a JSON array)
             "listYaml", "scalarYaml", "arrayJson"}
@@ -37,7 +38,7 @@ Init == /\ phase = "parse" /\ fault \in Faults /\ input \in Inputs /\ fmt \in Fo
 Abort == phase' = "exited" /\ exit' = 2 /\ UNCHANGED <<fault, input, fmt, verbose, nviol, rendered>>
 Step(p) == phase' = p /\ UNCHANGED <<fault, input, fmt, verbose, nviol, rendered, exit>>
 
-ParseArgs     == phase = "parse" /\ IF fault \in {"badOption", "badFormat", "badOptionValue"} THEN Abort ELSE Step("paths")
+ParseArgs     == phase = "parse" /\ IF fault \in {"badOption", "badFormat", "badOptionValue", "zeroOptionValue"} THEN Abort ELSE Step("paths")
 ValidatePaths == phase = "paths" /\ IF fault \in {"missingPath", "missingPathAfterExisting"} THEN Abort
                                     ELSE Step("config")
 ConfigFaults  == {"missingConfig", "malformedYaml", "malformedJson", "malformedProjectYaml",
